@@ -282,7 +282,7 @@ func assertedType(fn *ssa.Function, b *ssa.BasicBlock, msgPath string) string {
 		// helper taking the typed message directly
 		for _, p := range fn.Params {
 			if "p:"+p.Name() == msgPath {
-				if n := derefNamed(p.Type()); n != nil && strings.HasPrefix(n.Obj().Name(), "Client") {
+				if n := derefNamed(p.Type()); n != nil && strings.HasPrefix(n.Obj().Name(), "Client") && n.Obj().Name() != "ClientMsg" {
 					name = n.Obj().Name()
 				}
 			}
